@@ -89,9 +89,10 @@ Definition open_pos (s : exits) (hook : option (list row) -> option (list row)) 
                end in
   detect {| decl := hook (decl s); snap := snap s; resting := built; next_id := (next_id s + length built)%nat; is_open := true |}.
 
-(* _execute_long / _execute_short: _prepare_stop_loss copies the declaration (position still closed) *)
+(* _execute_long / _execute_short: `if self.stop_loss is not None: ... self._prepare_stop_loss()` copies the declaration (position
+   still closed); without a declaration the copy of an earlier one stays *)
 Definition prepare (s : exits) : exits :=
-  {| decl := decl s; snap := decl s; resting := resting s; next_id := next_id s; is_open := is_open s |}.
+  {| decl := decl s; snap := match decl s with Some d => Some d | None => snap s end; resting := resting s; next_id := next_id s; is_open := is_open s |}.
 
 Inductive xop := SetDecl (d : option (list row)) | Detect | Drop (id : nat) | DropNth (k : nat) | ClosePos (d : option (list row))
                | OpenPos (d : option (option (list row))) | Prepare.
